@@ -1,4 +1,5 @@
 import SiaModel.Ledger.Model
+import SiaProofs.Lemmas.LedgerC02Block
 /-!
 # C09 — determinism and absence of side effects (model level)
 
@@ -23,5 +24,73 @@ theorem c09_apply_function_of_inputs (L L' : Ledger) (b b' : Block) (hL : L = L'
 
 /-- validating leaves the ledger it was given untouched: the mid-state it returns is based on it -/
 theorem c09_newMid_base (L : Ledger) : (newMid L).base = L := rfl
+
+/-! ## validating the transactions one at a time = validating the block -/
+
+/-- the block-level checks of `ValidateBlock` (everything that is not per transaction):
+    `ValidateOrphan`, `validateSupplement`, the v2 commitment -/
+def blockChecks (L : Ledger) (b : Block) : VM Unit := do
+  validateOrphan L b
+  validateSupplement L b
+  if ¬ b.commitOk then reject "commitment hash mismatch" else pure ()
+
+/-- what a caller does who validates a block's transactions one at a time:
+    `ms := NewMidState(s)`, then for each transaction `ValidateTransaction(ms, txn)` followed
+    by `ms.ApplyTransaction(txn)` (v1 transactions first, then the v2 ones) -/
+def stepwise (L : Ledger) (b : Block) (pid : Id) : VM Mid := do
+  let s ← b.txns1.foldlM (vb1Step pid b.maxWeight) (newMid L)
+  b.txns2.foldlM (vb2Step b.maxWeight) s
+
+/-- `ValidateBlock` is the block-level checks followed by exactly that transaction-by-transaction
+    fold: same verdict (including which rejection or panic), same mid-state. -/
+theorem c09_stepwise_eq_block (L : Ledger) (b : Block) (pid : Id) :
+    validateBlock L b pid = (blockChecks L b >>= fun _ => stepwise L b pid) := by
+  rw [validateBlock_eq]
+  unfold blockChecks stepwise
+  simp only [bind_assoc]
+  refine bind_congr' rfl (fun _ => bind_congr' rfl (fun _ => ?_))
+  split
+  · simp [reject_bind]
+  · simp
+
+/-- In particular, on a block whose block-level checks pass, the two procedures are equal … -/
+theorem c09_stepwise_eq_block_of_checks (L : Ledger) (b : Block) (pid : Id)
+    (h : blockChecks L b = .ok ()) : validateBlock L b pid = stepwise L b pid := by
+  rw [c09_stepwise_eq_block, h]; rfl
+
+/-- … and a block is accepted iff its block-level checks pass and every transaction is
+    accepted against the mid-state left by its predecessors. -/
+theorem c09_block_ok_iff_stepwise (L : Ledger) (b : Block) (pid : Id) (ms : Mid) :
+    validateBlock L b pid = .ok ms ↔ blockChecks L b = .ok () ∧ stepwise L b pid = .ok ms := by
+  rw [c09_stepwise_eq_block]
+  cases hc : blockChecks L b with
+  | error e => simp [bind, Except.bind]
+  | ok u => cases u; simp [bind, Except.bind]
+
+/-- The verdict of one step depends only on the mid-state reached and the transaction: a
+    caller who obtained the same mid-state in any other way (decoded copy, shared memory)
+    gets the same verdict and the same next mid-state. -/
+theorem c09_step_function_of_inputs (pid mw : Nat) (s s' : Mid) (t t' : Txn1) (hs : s = s') (ht : t = t') :
+    vb1Step pid mw s t = vb1Step pid mw s' t' := by subst hs; subst ht; rfl
+
+/-- `c09_validate_readonly` (recorded for completeness): the model validator has no write
+    operation at all. It is a Lean function `Ledger → Block → Id → VM Mid`; the ledger and block it
+    was given are values that exist unchanged after the call, and calling it twice — or from
+    two places at once — yields the same result. -/
+theorem c09_validate_readonly (L : Ledger) (b : Block) (pid : Id) :
+    ∀ r₁ r₂, r₁ = validateBlock L b pid → r₂ = validateBlock L b pid → r₁ = r₂ := by
+  intro r₁ r₂ h₁ h₂; rw [h₁, h₂]
+
+/-- The state reached depends only on the parent state and the block: applying equal values
+    gives equal ledgers and equal diffs (the byte-identical encoding is the harness's part). -/
+theorem c09_apply_deterministic (L : Ledger) (b : Block) :
+    ∀ r₁ r₂, r₁ = applyBlock L b → r₂ = applyBlock L b → r₁ = r₂ := by
+  intro r₁ r₂ h₁ h₂; rw [h₁, h₂]
+
+/-- satisfiable: the empty block on any ledger — the fold is the identity on `newMid L` -/
+example (L : Ledger) (pid : Id) (b : Block) (h1 : b.txns1 = []) (h2 : b.v2 = none) :
+    stepwise L b pid = .ok (newMid L) := by
+  simp [stepwise, Block.txns2, h1, h2, pure, Except.pure]
+  rfl
 
 end C09
